@@ -46,7 +46,7 @@ def profile(tier, rng):
                      max_depth=8 if tier == "quick" else rng.choice([8, 14]), min_depth=1, final_order_p=0.5, pair_keys_p=0.2,
                      ops={"extend": 4, "wextend": 2, "owextend": 4, "project": 2, "select_rows": 2, "select_columns": 1,
                           "drop_columns": 1, "rename_columns": 1, "map_columns": 1, "order_rows": 2, "natural_join": 3,
-                          "concat_rows": 1})
+                          "concat_rows": 1, "convert_records": 1})
 
 
 def present(frame, how, rng):
